@@ -10,6 +10,7 @@ from typing import Dict, List, Optional, Set, Tuple
 from ..cfg import CFG, Node, assigned_names, cond_facts, facts_at, owner_node
 from ..core import Ctx, RuleReport, rule
 from ..src import AnalysisError, FuncInfo, norm, try_fold, walk_local
+from ..resolve import expand
 from .lexical import single_def
 from .transformr import may_unproven
 
@@ -437,6 +438,31 @@ def r36(ctx: Ctx) -> RuleReport:
                     'a triple can be left out of the data (' + ' -> '.join(repr(cfg2.nodes[x]) for x in p2[-3:])[:160] + '): without markers, the instance triple of a '
                     'node that has no concept is the only thing that gives the node a site, so the variable is written as a constant and its node is lost'
                     if p2 else '')
+    # closed world of the "already pushed" set: only the variable of a Push marker that is being honoured may enter it
+    if len(inner) == 1 and ev:
+        guard_sets = set()
+        for nd in cfg2.nodes:
+            if nd.kind == 'cond' and isinstance(nd.ast, ast.Compare) and len(nd.ast.ops) == 1 and isinstance(nd.ast.ops[0], (ast.In, ast.NotIn)) \
+                    and isinstance(nd.ast.comparators[0], ast.Name) and any(x is nd.ast for x in ast.walk(inner[0])):
+                lhs = norm(expand(ctx, pc, nd.ast.left, nd.ast))
+                if lhs == f'{ev}.variable':
+                    guard_sets.add(nd.ast.comparators[0].id)
+        for S in sorted(guard_sets):
+            feeds = [n for n in walk_local(pc.node) if isinstance(n, ast.Call) and isinstance(n.func, ast.Attribute) and norm(n.func.value) == S
+                     and n.func.attr in ('add', 'update', 'append', 'extend') and n.args]
+            feeds += [n for n in walk_local(pc.node) if isinstance(n, ast.AugAssign) and norm(n.target) == S]
+            for f in feeds:
+                k2 = f'penman.layout:_preconfigure: only the variable of a honoured Push enters `{S}` ({norm(f)[:40]})'
+                arg = f.args[0] if isinstance(f, ast.Call) else f.value
+                is_push_var = norm(expand(ctx, pc, arg, f)) == f'{ev}.variable' and isinstance(f, ast.Call) and f.func.attr in ('add', 'append')
+                under_push = any(x is f for x in ast.walk(inner[0])) and (f'isinstance({ev}, Push)', True) in facts_at(cfg2, IN2, pm2, f)
+                if is_push_var and under_push:
+                    rep.ok(k2, pc.loc(f))
+                else:
+                    rep.violation(k2, pc.loc(f), f'`{norm(arg)[:40]}` is put into `{S}` ' + ('outside the handling of a Push marker' if not under_push else
+                                  'although it is not the variable of the marker') + f': `{S}` decides that a later Push is a "secondary node context" and drops it, '
+                                  f'so a node whose variable was merely mentioned before (e.g. as the source of a de-inverted triple) loses the place where the text '
+                                  f'wrote it and is re-opened at its first mention')
     key = 'penman.layout:_preconfigure: one POP is queued for every Pop marker of a triple, after the triple'
     if bad is not None:
         rep.violation(key, pc.loc(bad[0]), bad[1])
@@ -877,7 +903,9 @@ def r44(ctx: Ctx) -> RuleReport:
         if len(vals) == 1 and isinstance(vals[0], ast.Call) and norm(vals[0].func).endswith('.variables'):
             variables = nm
     accept = {(f'{tp}[1] == CONCEPT_ROLE', True), (f'{tp}[2] not in {variables}', True), (f'{tp}[2] in {variables}', False),
-              (f'{tp}[1] != CONCEPT_ROLE', False)}
+              (f'{tp}[1] != CONCEPT_ROLE', False),
+              # infeasible edges: the source of a triple of g is always one of g.variables()
+              (f'{tp}[0] not in {variables}', True), (f'{tp}[0] in {variables}', False)}
     for r in false_rets:
         # may a path reach this `return False` with neither test established and without passing the context loop?
         seen = set()
@@ -1050,4 +1078,85 @@ def r67(ctx: Ctx) -> RuleReport:
                     + ' -> '.join(repr(v.cfg.nodes[p]) for p in path[-4:])[:200] +
                     f'): when {k} already has a node, a second node is opened for it and the variable is defined twice in the text, '
                     f'so the encoded graph decodes with an extra instance triple' if path else 'the existing entry is read on every path to the store')
+    return rep
+
+
+# ---------------------------------------------------------------------------------------------
+@rule('R83', '_find_next skips POP data, stops at the first datum it can place and splits the pending data exactly there')
+def r83(ctx: Ctx) -> RuleReport:
+    rep = RuleReport('R83', r83.title, floor=2)
+    fi = ctx.repo.func(L, '_find_next')
+    cfg = CFG(fi.node)
+    IN = cond_facts(cfg)
+    pm = ctx.repo.parent_map(fi.node)
+    rets = [n for n in walk_local(fi.node) if isinstance(n, ast.Return) and isinstance(n.value, ast.Tuple) and len(n.value.elts) == 3]
+    if len(rets) != 1:
+        rep.undecided(f'{fi.fq}: returns (data after the split, variable, data before the split)', fi.loc(), f'{len(rets)} three-part returns')
+        return rep
+    ret = rets[0]
+    var = ret.value.elts[1]
+    if not isinstance(var, ast.Name):
+        rep.undecided(f'{fi.fq}: the variable found is returned by name', fi.loc(ret), norm(var))
+        return rep
+    # index names the two slices are computed from
+    idx = set()
+    for part in (ret.value.elts[0], ret.value.elts[2]):
+        ex = expand(ctx, fi, part, ret)
+        idx |= {x.id for x in ast.walk(ex) if isinstance(x, ast.Name)}
+    hits = [n for n in walk_local(fi.node) if isinstance(n, ast.Assign) and len(n.targets) == 1 and isinstance(n.targets[0], ast.Name)
+            and n.targets[0].id == var.id and not (isinstance(n.value, ast.Constant) and n.value.value is None)]
+    if not hits:
+        rep.undecided(f'{fi.fq}: a variable is chosen inside the search loop', fi.loc(), f'no assignment to {var.id}')
+        return rep
+    for h in hits:
+        loop = next((a for a in _ancestors(pm, h) if isinstance(a, (ast.For, ast.While))), None)
+        key = f'{fi.fq}: `{norm(h)}` ends the search and the data are split at that datum'
+        if loop is None:
+            rep.undecided(key, fi.loc(h), 'not inside a loop')
+            continue
+        head = cfg.node_of(loop)
+        hn = cfg.node_of(h)
+        back = cfg.path_avoiding([(hn, None)], {head}, lambda nd: False)
+        if back:
+            rep.violation(key, fi.loc(h), f'after `{norm(h)}` the loop goes on ({" -> ".join(repr(cfg.nodes[x]) for x in back[-3:])[:120]}): the variable of a later datum '
+                          f'can replace the hit while the split index keeps moving, so the datum that made the choice ends up on the wrong side of the split')
+            continue
+        lv = {x.id for x in ast.walk(loop.target) if isinstance(x, ast.Name)} if isinstance(loop, ast.For) else set()
+        if isinstance(loop, ast.For) and not (lv & idx):
+            rep.violation(key, fi.loc(h), f'this hit is found in the loop over `{norm(loop.target)}`, but the split point is computed from {sorted(idx & {x.id for x in ast.walk(fi.node) if isinstance(x, ast.Name)})}: '
+                          f'the variable returned and the two halves of the data belong to different data, and configure then reports "incomplete configuration" '
+                          f'or misplaces triples for a connected graph')
+            continue
+        rep.ok(key, fi.loc(h))
+    # POP data: skipped (never subscripted, never a reason to stop)
+    conds = [nd for nd in cfg.nodes if nd.kind == 'cond' and norm(nd.ast).startswith('isinstance(') and norm(nd.ast).endswith(', Pop)')]
+    if not conds:
+        rep.undecided(f'{fi.fq}: POP data are recognised with isinstance(datum, Pop)', fi.loc())
+    for c in conds:
+        dn = norm(c.ast.args[0])
+        loop = next((a for a in _ancestors(pm, c.ast) if isinstance(a, (ast.For, ast.While))), None)
+        key = f'{fi.fq}: a POP datum is skipped and the search goes on'
+        if loop is None:
+            rep.undecided(key, fi.loc(c.ast))
+            continue
+        head = cfg.node_of(loop)
+        t_succ = [(m, lab) for m, lab in cfg.succ[c.id] if lab == 'T']
+        # from the T edge: must come back to the loop head, without leaving the loop, without touching datum[...]
+        leaves = cfg.path_avoiding([(c.id, 'T')], {cfg.exit, cfg.rexit} | {cfg.node_of(ret)}, lambda nd: nd.id == head) if t_succ else None
+        if not t_succ:
+            rep.violation(key, fi.loc(c.ast), 'the POP test can never succeed: a POP datum is subscripted like a triple (TypeError instead of a tree or LayoutError)')
+        elif leaves:
+            rep.violation(key, fi.loc(c.ast), f'a POP datum ends the search ({" -> ".join(repr(cfg.nodes[x]) for x in leaves[-3:])[:120]}): triples queued before it are never '
+                          f'considered, and configure reports a connected graph as disconnected')
+        else:
+            rep.ok(key, fi.loc(c.ast))
+        subs = [n for n in ast.walk(loop) if isinstance(n, ast.Subscript) and norm(n.value) == dn]
+        for sb in subs[:3]:
+            fx = facts_at(cfg, IN, pm, sb)
+            k2 = f'{fi.fq}: `{norm(sb)}` is only evaluated for data that are not POP'
+            if (norm(c.ast), False) in fx:
+                rep.ok(k2, fi.loc(sb))
+            else:
+                rep.violation(k2, fi.loc(sb), f'`{norm(sb)}` can be evaluated for a POP datum (a Pop object is not subscriptable): encode raises TypeError for a graph '
+                              f'whose pending data contain a POP')
     return rep
